@@ -21,6 +21,17 @@ def parseEvents (s : String) : Option (List Ev) :=
         pure (Ev.recv m :: rest)
   go 0 (splitList s)
 
+def parsePMsgs (s : String) : Option (List PMsg) :=
+  let rec go (seq : Nat) : List String → Option (List PMsg)
+    | [] => some []
+    | t :: ts => do
+      match (t.splitOn ".").mapM String.toNat? with
+      | some [k, sender, op, q, sigop] =>
+        let rest ← go (seq + 1) ts
+        pure (⟨k, sender, op, q, sigop, seq⟩ :: rest)
+      | _ => none
+  go 0 (splitList s)
+
 def msgsOf (evs : List Ev) : List Msg :=
   evs.filterMap fun e => match e with | .recv m => some m | .next => none
 
@@ -58,6 +69,13 @@ def model (line : String) : String :=
   | ["recv", n, self, excl, seats, sess, evs] =>
     match n.toNat?, self.toNat?, parseNats excl, parseNats seats, sess.toNat?, parseEvents evs with
     | some n, some self, some excl, some seats, some sess, some evs => modelRecv n self excl seats sess evs
+    | _, _, _, _, _, _ => "bad-op"
+  | ["pub", n, self, dq, seats, sess, msgs] =>
+    match n.toNat?, self.toNat?, parseNats dq, parseNats seats, sess.toNat?, parsePMsgs msgs with
+    | some n, some self, some dq, some seats, some sess, some ms =>
+      let g := groupWithDQ n dq
+      let h := runPub self sess g seats ms
+      s!"can={if canTransitionPub g h then 1 else 0} n={h.length} r5={showRecvd (receivedPub h)}"
     | _, _, _, _, _, _ => "bad-op"
   | ["run", n, t, excl, _seed, _mode] =>
     match n.toNat?, t.toNat?, parseNats excl with
@@ -105,12 +123,19 @@ def monitor (op obs : String) : String :=
     match n.toNat?, self.toNat?, parseNats excl, parseNats seats, sess.toNat?, parseEvents evs with
     | some n, some self, some excl, some seats, some sess, some evs =>
       let lists := (List.range 6).mapM fun k => (field o s!"r{k}").bind parsePairs
-      match lists with
-      | some lists =>
-        if holdsRecv self sess (memberGroup n self excl) seats (msgsOf evs) lists then "ok"
-        else "FAIL unadmitted-or-duplicate-message-in-history"
-      | none => "FAIL unparsable-observation"
+      match lists, (field o "st").bind String.toNat?, field o "can" with
+      | some lists, some st, some can =>
+        if holdsRecv self sess (memberGroup n self excl) seats evs st (can == "1") lists then "ok"
+        else "FAIL unadmitted-or-duplicate-message-or-wrong-CanTransition"
+      | _, _, _ => "FAIL unparsable-observation"
     | _, _, _, _, _, _ => "FAIL bad-op"
+  | ["pub", n, self, dq, seats, sess, msgs] =>
+    match n.toNat?, self.toNat?, parseNats dq, parseNats seats, sess.toNat?, parsePMsgs msgs,
+          (field o "r5").bind parsePairs, field o "can" with
+    | some n, some self, some dq, some seats, some sess, some ms, some l, some can =>
+      if holdsPub self sess (groupWithDQ n dq) seats ms (can == "1") l then "ok"
+      else "FAIL publication-unadmitted-or-duplicate-signature-or-wrong-CanTransition"
+    | _, _, _, _, _, _, _, _ => "FAIL unparsable-observation"
   | ["run", n, t, excl, _seed, _mode] =>
     match n.toNat?, t.toNat?, parseNats excl, (field o "ok").bind parseNats, field o "agree",
           field o "mis", field o "ks", field o "exjoin" with
